@@ -19,7 +19,7 @@ import (
 // with a context parameter); one package per program, default output ./generated/generated.go.
 
 type callsScen struct {
-	Dir   string              `json:"dir"`
+	Dir     string              `json:"dir"`
 	Shape   map[string][]string `json:"shape"`
 	RootErr bool                `json:"rootErr"`
 	ExtErr  bool                `json:"extErr"`
